@@ -134,18 +134,22 @@ pub(crate) fn eval_expr(ctx: &Context, expr: &Expr) -> Result<Value, QueryError>
                         expr.show(ctx)
                     )))
                 } else {
-                    let expr = (&expr
-                        * &ctx
-                            .lookup(scale)
-                            .expect(&*format!("Missing {} unit", scale)))
-                        .unwrap();
-                    Ok(Value::Number(
-                        (&expr
-                            + &ctx
-                                .lookup(base)
-                                .expect(&*format!("Missing {} constant", base)))
-                            .unwrap(),
-                    ))
+                    // These come from the definitions file; a context
+                    // loaded from something else may not have them.
+                    let scale = ctx.lookup(scale).ok_or_else(|| {
+                        QueryError::generic(format!("Missing {} unit", scale))
+                    })?;
+                    let base = ctx.lookup(base).ok_or_else(|| {
+                        QueryError::generic(format!("Missing {} constant", base))
+                    })?;
+                    let expr = (&expr * &scale).unwrap();
+                    (&expr + &base).map(Value::Number).ok_or_else(|| {
+                        QueryError::generic(format!(
+                            "Addition of units with mismatched units is not meaningful: <{}> + <{}>",
+                            expr.show(ctx),
+                            base.show(ctx)
+                        ))
+                    })
                 }
             }
         },
